@@ -104,6 +104,11 @@ func discoverEntries(p *Program) []Entry {
 						add(f, "RPC handler registered in "+FuncKey(fn))
 					}
 				}
+			case strings.HasSuffix(name, "http.ServeMux).HandleFunc") || name == "net/http.HandleFunc" || strings.HasSuffix(name, "mux.Router).HandleFunc"):
+				// HTTP / websocket endpoints of the RPC server: reachable by any client
+				for _, f := range funcValueTargets(args[len(args)-1], 0) {
+					add(f, "HTTP handler registered in "+FuncKey(fn))
+				}
 			case strings.HasSuffix(name, "Host.SetStreamHandler"):
 				for _, f := range funcValueTargets(args[len(args)-1], 0) {
 					add(f, "libp2p stream handler set in "+FuncKey(fn))
